@@ -293,7 +293,16 @@ func (o *ovsdbClient) connect(ctx context.Context, reconnect bool) error {
 				continue
 			}
 
-			// Restart all monitors; each monitor will handle purging
+			// Several monitors feed the same cache: purge it once, up
+			// front. A monitor restarted later must not wipe the rows
+			// restored by a monitor restarted before it.
+			if len(db.monitors) > 1 {
+				db.cacheMutex.Lock()
+				db.cache.Purge(db.model)
+				db.cacheMutex.Unlock()
+			}
+
+			// Restart all monitors; a lone monitor will handle purging
 			// the cache if necessary
 			for id, request := range db.monitors {
 				err := o.monitor(ctx, MonitorCookie{DatabaseName: dbName, ID: id}, true, request)
@@ -1030,8 +1039,9 @@ func (o *ovsdbClient) monitor(ctx context.Context, cookie MonitorCookie, reconne
 	// MonitorCondSince one, whose LastTransactionID was known to the
 	// server. In this case the reply contains only updates to the existing
 	// cache data, while otherwise it includes complete DB data so we must
-	// purge to get rid of old rows.
-	if reconnecting && (len(db.monitors) > 1 || !lastTransactionFound) {
+	// purge to get rid of old rows. With several monitors the cache was
+	// purged once before the first of them was restarted.
+	if reconnecting && len(db.monitors) == 1 && !lastTransactionFound {
 		db.cache.Purge(db.model)
 	}
 
